@@ -46,6 +46,10 @@ CLAIMED = {
          "Lean 4 proof over session model and line-continuation model + differential correspondence (scanIsContinued) + end-to-end loop-vs-batch search with erroneous forms interleaved",
          "scanIsContinued is run against its model on ~146k inputs; template and generated programs are fed form by form to -Gloop, with erroneous forms interleaved, and compared with -Ginterp."),
 
+
+ "C11": ("full for the operations modelled: every function of bigint.c / foam_i.c named in the property (normalisation, comparison, negate/abs, plus, minus, times, divide incl. Knuth's algorithm D with the qhat correction loop and add-back, mod, gcd, powers, modular power, length, bit, shifts, machine-integer conversions, decimal and radix text conversion in both directions) is modelled digit-by-digit and PROVED to return the exact integer with a well-formed representation; allocation, aliasing and placea bookkeeping are not modelled; bintShiftRem (not exported by Machine) is refuted and recorded.",
+         "Lean 4 proof over digit-level hand model of bigint.c/foam_i.c + differential correspondence (values and representation) + Python big-integer oracle on the implementation's answers",
+         "27 Lean theorems incl. divide_spec (quotient = tdiv, remainder = tmod) for Knuth D; bigint.c linked from the scratch build answers ~37k requests per run that are compared with the model (value + immediate/stored representation + branch tags) and with Python's own big integers."),
  "C12": ("partial: the Java builtin mapping (genjava.c table, foamj method bodies) is regenerated and proved equal to a 32-bit reference per builtin, with lemmas fixing exactly the region (operands and exact result within 32 bits) where the Java route can agree with the 64-bit C/interpreter routes; the 5000-line Java emitter is not modelled and is covered by the end-to-end javac/java vs interpreter search.",
          "translator (genjava.c builtin table + foamj Java method bodies) regenerating Lean definitions + Lean 4 theorems + JVM correspondence on boundary tuples + end-to-end Java-vs-interpreter search",
          "Every run regenerates the Java builtin mapping from the sources and re-proves it against a 32-bit reference; the real foamj methods are executed on boundary tuples; corpus and generated programs are compiled with -Fjava, javac, and run against the interpreter."),
